@@ -1,7 +1,17 @@
-//! Conformance drivers (pv-p2p). Sub-commands are added per property.
+//! Conformance drivers for the P2P stack (pallas-network2): C27, C28, C29.
+//!   init-run     --in schedules.ndjson --out trace.ndjson --res results.ndjson
+//!   init-random  --mode c27|c28|c29 --seed N --runs R --events E --peers P [--snap 1] --out trace.ndjson
+//!   resp-random  --seed N --runs R --events E --peers P --out trace.ndjson
+mod initiator;
+mod msgs;
+mod responder;
+
 fn main() {
     let args = pv_core::Args::parse();
     match args.cmd.as_str() {
+        "init-run" => initiator::run_schedules(&args),
+        "init-random" => initiator::random_runs(&args),
+        "resp-random" => responder::random_runs(&args),
         other => pv_core::die(&format!("unknown sub-command {other}")),
     }
 }
